@@ -23,6 +23,8 @@ def main() -> int:
     ap.add_argument('pid')
     ap.add_argument('--tier', default=os.environ.get('VERIF_TIER', 'quick'))
     ap.add_argument('--replay')
+    ap.add_argument('--plan')
+    ap.add_argument('--write-replay')
     ap.add_argument('--cases', type=int)
     ap.add_argument('--workers', type=int)
     ap.add_argument('--wall', type=float)
@@ -33,6 +35,8 @@ def main() -> int:
         a.tier = 'quick'
     from simkfac import runner
 
+    if a.plan and a.write_replay:
+        return runner.write_replay(a.pid, a.plan, a.write_replay)
     if a.replay:
         return runner.replay(a.pid, a.replay)
     return runner.drive(a.pid, a.tier, a.seed, workers=a.workers,
